@@ -7,6 +7,7 @@ CONSTANTS
   MaxFaults = 2
   K = 3
   MaxRounds = 6
+  MaxRematch = 0
   GenK = 3
 VIEW View
 INVARIANT Inv_Converge
